@@ -15,7 +15,9 @@ Two legs, one evidence file (level of the weaker leg, fault enumeration):
 The subject is `TotalDepth.util.bin_file_type.binary_file_type(fobj)` on a counting BytesIO.
 """
 import io
+import os
 import signal
+from mc import seams
 import traceback
 
 from mc.run import Result, h64
@@ -395,6 +397,25 @@ def check_bytes(data, expected=None, fmt=None):
         if expected is not None and got != expected:
             bad.append(({'kind': 'valid_not_recognised', 'format': fmt or expected, 'got': str(got)},
                         'valid %s file identified as %r' % (expected, got)))
+        if expected is not None:
+            # the batch tools ask through the path entry point; one scratch path is reused for every case of this process,
+            # so an answer remembered per path (rather than per content) shows up
+            path = os.path.join(seams.SCRATCH, 'c20-%d.bin' % os.getpid())
+            try:
+                os.makedirs(seams.SCRATCH, exist_ok=True)
+                with open(path, 'wb') as f:
+                    f.write(data)
+                by_path = bin_file_type.binary_file_type_from_path(path)
+            except Exception as err:  # noqa
+                by_path = 'raised %s' % type(err).__name__
+            finally:
+                try:
+                    os.remove(path)
+                except OSError:
+                    pass
+            if by_path != got:
+                bad.append(({'kind': 'path_entry_point_differs', 'format': fmt or expected},
+                            'binary_file_type_from_path() answers %r, binary_file_type() on the same bytes %r' % (by_path, got)))
     if over:
         bad.append(({'kind': 'operation_budget_exceeded'},
                     '%d+ file operations on %d bytes, budget %d*(len+1) = %d' % (fobj.ops, len(data), OPS_C, budget)))
